@@ -1,6 +1,6 @@
 # C03 — sender adaptors deliver exactly one, correct completion signal (structural part; DESIGN.md §5 C03)
 import re
-from engine.core import AnalysisBroken, P, T, callee_of, callee_short, cond_atoms, loc_of, strip, subexprs, block_path, is_moved
+from engine.core import AnalysisBroken, P, T, callee_of, callee_short, cond_atoms, loc_of, strip, subexprs, block_path, is_moved, forward
 from engine.kinds import LockFlow, FactFlow, CountFlow, precedes_on_all_paths, always_followed_by, derives_from
 from engine.completions import Completions, CPO, NS
 from .common import facts, lib, driver, witness
@@ -22,7 +22,7 @@ EXPLANATION = (
 ASSUMPTIONS = ["completion CPOs are noexcept (receiver contract)", "pika::detail::try_catch_exception_ptr(f, g) runs f and, if f throws, g with the exception",
                "pika::detail::visit calls exactly one operator() of the visitor"]
 THOROUGH_CONFIGS = [["-UNDEBUG", "-DPIKA_DEBUG"]]
-FLOORS = {"C03.R1": 45, "C03.R2": 5, "C03.R3": 6, "C03.R4": 18, "C03.R5": 6, "C03.R6": 6, "C03.R7": 9, "C03.R8": 1, "C03.R9": 6, "C03.R10": 6}
+FLOORS = {"C03.R1": 45, "C03.R2": 5, "C03.R3": 6, "C03.R4": 18, "C03.R5": 6, "C03.R6": 6, "C03.R7": 9, "C03.R8": 1, "C03.R9": 6, "C03.R10": 6, "C03.R11": 5}
 
 MEMBERS = ("set_value", "set_error", "set_stopped")
 CHANNEL_OK = {"set_value": {"value", "error", "connect", "protocol"}, "set_error": {"error", "protocol", "connect"}, "set_stopped": {"stopped", "protocol"}}
@@ -475,6 +475,33 @@ def run(rep, tier):
                         "exactly once on every path (starts on exit paths: %s): the operation never completes / forwards values that were never stored" % sorted(cf.exits))
     if n10 < 6:
         raise AnalysisBroken("C03.R10 examined only %d instances" % n10)
+
+    # ---- R11: starting the nested operation is the last thing start() does to its own object
+    rep.rule("C03.R11", "K2: an operation's start() member does not write to its own object after it has started the operation it wraps: a predecessor that completes inline lets the "
+             "downstream receiver destroy the whole operation state before the nested start() returns (start_detached does), so a flag recorded afterwards is written into freed "
+             "memory - and was still unset when the destructor looked at it")
+    n11 = 0
+    for fn0 in F.fns:
+        if fn0.parent != -1 or not fn0.pattern or fn0.kind != "method" or not fn0.qname.endswith("::start") or not re.match(r"^pika::(\w+_detail|when_all_impl)::", fn0.qname):
+            continue
+        for fn in usable(F, fn0)[:1]:
+            starts = [(b, i) for b, i, e in fn.all_events() if e.get("k") == "call" and callee_of(e) == NS + "start"]
+            if not starts:
+                continue
+            sset = set(starts)
+            after, _, _ = forward(fn, frozenset(), lambda st, ev, pos: st | {"s"} if pos in sset else st, None, lambda a, b: a | b)
+            n11 += 1
+            late = [e for b, i, e in fn.all_events() if (b, i) in after and "s" in after[(b, i)] and (
+                (e.get("k") == "write" and P(e["lhs"]).startswith("this->")) or
+                (e.get("k") == "call" and e.get("op") in ("=", "+=", "++", "--") and e.get("recv") is not None and P(e["recv"]).startswith("this->")) or
+                (e.get("k") == "call" and callee_short(e) in ("store", "exchange", "emplace", "reset") and e.get("recv") is not None and P(e["recv"]).startswith("this->")))]
+            if late:
+                rep.bad("C03.R11", fn, loc_of(late[0]), "write-after-nested-start", "%s modifies its own object (%s) after it has started the wrapped operation: if that operation completes "
+                        "inline and the receiver destroys this operation state, the write goes to freed memory (and the destructor saw the old value)" % (fn.qname, T(late[0])[:80]))
+            else:
+                rep.ok("C03.R11", fn, "nothing of *this is modified after the nested start()")
+    if n11 < 5:
+        raise AnalysisBroken("C03.R11 examined only %d start() members" % n11)
 
     # ---- R8: a stopped signal that has arrived is forwarded whatever the predecessor's static traits say
     rep.rule("C03.R8", "K6: pika's adaptors all declare sends_done = false yet forward set_stopped, so the trait says nothing about whether a stopped signal can arrive. "
